@@ -58,6 +58,9 @@ struct Base {
     tcfg: TraceCfg,
     wcfg: WorldCfg,
     rounds: usize,
+    /// The network also returns datagrams that cannot be parsed (truncated quotations, ICMP
+    /// messages shorter than their header, mutated and random bytes).
+    malformed: bool,
 }
 
 fn base_config(seed: u64, k: usize, big: bool) -> Base {
@@ -105,7 +108,7 @@ fn base_config(seed: u64, k: usize, big: bool) -> Base {
     t.quote = Quote::Full;
     let topo = Topology { hops, target: t, tcp: *r.pick(&[TcpMode::SynAck, TcpMode::Rst]) };
     let wcfg = world_cfg(topo, seed ^ k as u64);
-    Base { cell, tcfg, wcfg, rounds }
+    Base { cell, tcfg, wcfg, rounds, malformed: false }
 }
 
 fn run_once(b: &Base, faults: &[(usize, i32)]) -> Result<(Arc<World>, RunResult), crate::framework::Panic> {
@@ -122,6 +125,42 @@ fn run_once_ops(b: &Base, faults: &[(usize, i32)], op_faults: &[(Op, usize, i32)
     }
     guarded(|| {
         let world = World::new(wcfg);
+        if b.malformed {
+            let v6 = b.cell.v6;
+            let cfg = crate::props::c04::Cfg { protocol: b.cell.protocol, v6, ext: b.cell.ext };
+            let router = scen::hop_addr(v6, 0, 0);
+            world.inner.lock().unwrap().inject_on_send.push(Box::new(move |wp, r| {
+                let mut out = Vec::new();
+                if !r.chance(1, 3) {
+                    return out;
+                }
+                let delay = r.range(1_000, 15_000_000);
+                match r.below(3) {
+                    0 => {
+                        // the probe quoted by a router which cuts the quotation short
+                        let q = crate::forge::truncate_quote(&wp.bytes, v6);
+                        let n = r.below(q.len() as u64 + 1) as usize;
+                        let (bytes, src) = crate::forge::icmp_error(v6, router, scen::HOST_V4, scen::host_v6(), r.chance(1, 2), &q[..n], 0);
+                        out.push(crate::forge::injected(delay, v6, bytes, src, crate::world::PktClass::Noise));
+                    }
+                    1 => {
+                        // an ICMP message shorter than the ICMP header
+                        let n = r.below(8) as usize;
+                        let icmp = r.bytes(n);
+                        let bytes = if v6 { icmp } else { crate::wire::wrap_ip4(std::net::Ipv4Addr::new(10, 99, 0, 1), scen::HOST_V4, crate::wire::PROTO_ICMP, 60, 0, 0x4445, &[], &icmp) };
+                        out.push(crate::forge::injected(delay, v6, bytes, router, crate::world::PktClass::Noise));
+                    }
+                    _ => {
+                        let mut pool = Vec::new();
+                        crate::props::c04::random_datagrams(&cfg, r, 1, &mut pool);
+                        for (_, d) in pool {
+                            out.push(crate::forge::injected(delay, v6, d, router, crate::world::PktClass::Noise));
+                        }
+                    }
+                }
+                out
+            }));
+        }
         let tracer = b.tcfg.builder().build().expect("builder");
         let r = run_tracer(&world, 0, &tracer, &RunOpts { snapshots: false });
         (world, r)
@@ -319,7 +358,41 @@ pub fn random_faults(seed: u64, k: usize) -> Outcome {
     let mut b = base_config(seed ^ 0xB16, k, true);
     let mut r = Prng::new(seed ^ (k as u64) << 20 ^ 0xFA17);
     let site = b.cell.name();
-    match r.below(5) {
+    match r.below(6) {
+        5 => {
+            // a network that also returns datagrams which cannot be parsed: they answer no probe
+            // and are not socket errors, the run must go on to its n rounds and return success
+            b.malformed = true;
+            let replay = json!({"how": format!("vcheck C09 --seed {seed} --only r{k}"), "scenario": format!("r{k}"), "cell": site, "config": format!("{:?}", b.tcfg), "network": "returns malformed datagrams"});
+            match run_once(&b, &[]) {
+                Ok((world, run)) => {
+                    let w = world.inner.lock().unwrap();
+                    let noise_read = w.log.iter().filter(|e| matches!(&e.ev, crate::world::Ev::Read { pkt: Some(p), .. } | crate::world::Ev::RecvFrom { pkt: Some(p), .. } if w.pkts[*p].class == crate::world::PktClass::Noise)).count();
+                    o.count("malformed_datagrams_read_by_running_tracers", noise_read as u64);
+                    if noise_read > 0 {
+                        o.hit("malformed_response_does_not_end_the_run");
+                        if let Err(e) = &run.result {
+                            o.violate(
+                                "malformed_response_does_not_end_the_run",
+                                format!("{}|{}", if b.cell.v6 { "v6" } else { "v4" }, e.split(" packet, ").next().unwrap_or("").chars().take(80).collect::<String>()),
+                                format!("after {} of {} rounds the run ended with {e:?}: a datagram that cannot be parsed is neither a response to a probe nor a socket error", run.rounds.len(), b.rounds),
+                                replay.clone(),
+                            );
+                        } else if run.rounds.len() != b.rounds {
+                            o.violate("malformed_response_does_not_end_the_run", format!("{site}|rounds"), format!("{} rounds published, limit {}", run.rounds.len(), b.rounds), replay.clone());
+                        }
+                        if w.deadline_hit {
+                            o.violate("run_ends_within_virtual_time_budget", site.clone(), "still running after three times the virtual time budget".to_string(), replay.clone());
+                        }
+                        o.nontrivial = Some(format!("{site}#r{k}#malformed"));
+                    }
+                }
+                Err(p) if p.in_repo() => o.violate("no_panic", format!("{site}|{}", p.site()), format!("panic {}:{} {}", p.file, p.line, p.message), replay),
+                Err(p) => o.harness_error = Some(format!("harness panic {}:{} {}", p.file, p.line, p.message)),
+            }
+            o.count("malformed_network_runs", 1);
+            return o;
+        }
         4 => {
             // TCP connection attempts to the target fail with an error other than "refused"
             // (timed out, network unreachable, reset): not a response, and not fatal either
@@ -375,10 +448,10 @@ pub fn random_faults(seed: u64, k: usize) -> Outcome {
 
 pub fn run(tier: Tier, seed: u64, only: Option<String>) -> i32 {
     let mut rep = Report::new("C09", "fault_enumeration", tier, seed);
-    rep.rule = "base configuration = protocol x family x privilege with max-ttl <= 4, <= 3 rounds, path length <= 3; for each base EVERY socket call of the fault-free run (setup included) is failed once with every errno that call can plausibly return (thorough: plus a second later fault for every non-fatal first fault); then random fault sequences, silent and duplicate-flooding networks on larger configurations with 2..100 rounds; distinct by (base configuration); non-trivial = the base produced at least one faulted run".into();
+    rep.rule = "base configuration = protocol x family x privilege with max-ttl <= 4, <= 3 rounds, path length <= 3; for each base EVERY socket call of the fault-free run (setup included) is failed once with every errno that call can plausibly return (thorough: plus a second later fault for every non-fatal first fault); then random fault sequences, silent, duplicate-flooding and malformed-datagram networks on larger configurations with 2..100 rounds; distinct by (base configuration); non-trivial = the base produced at least one faulted run".into();
     rep.assumptions = vec![
         "which errno kinds are 'transient' (probe marked failed) is taken from the documented mapping in net/ipv4.rs (host/net unreachable, invalid input for ICMP, address not available at bind, net unreachable at connect); everything else except EAGAIN on read and errors of the zero-timeout writability poll is fatal".into(),
-        "a datagram for which the receive path itself returns Err terminates the trace by design (C04's wording allows it); no such datagram is generated here".into(),
+        "a datagram that cannot be parsed is a response the network returns, not a socket error: one random scenario in six runs over a network that also returns truncated quotations, ICMP messages shorter than their header and mutated / random datagrams, and must still publish its n rounds and return success (clause malformed_response_does_not_end_the_run)".into(),
     ];
     rep.required_clauses = vec![
         "no_fatal_fault_means_ok_and_n_rounds",
